@@ -13,14 +13,14 @@ pub static BEAT: std::sync::atomic::AtomicU64 = std::sync::atomic::AtomicU64::ne
 pub static PANIC_DEPTH: std::sync::atomic::AtomicU32 = std::sync::atomic::AtomicU32::new(0);
 pub static DONE: std::sync::atomic::AtomicBool = std::sync::atomic::AtomicBool::new(false);
 pub static CUR: std::sync::Mutex<String> = std::sync::Mutex::new(String::new());
-fn beat_case(head: &str) {
+pub fn beat_case(head: &str) {
     if let Ok(mut c) = CUR.lock() {
         c.clear();
         c.push_str(head);
     }
     BEAT.fetch_add(1, std::sync::atomic::Ordering::Relaxed);
 }
-fn beat_op(op: &[i128]) {
+pub fn beat_op(op: &[i128]) {
     if let Ok(mut c) = CUR.lock() {
         c.push_str("O ");
         c.push_str(&join(op));
